@@ -9,8 +9,10 @@ ALL = ["C%02d" % i for i in range(1, 21)]
 
 # property -> dict(level, text, note, technique, design), one file tools/props/<ID>.meta.json per claimed property
 CHECKS = {}
+ENABLED = json.loads((VERIF / "tools" / "props" / "enabled.json").read_text())
 for f in sorted((VERIF / "tools" / "props").glob("C*.meta.json")):
-    CHECKS[f.name.split(".")[0]] = json.loads(f.read_text())
+    if f.name.split(".")[0] in ENABLED:
+        CHECKS[f.name.split(".")[0]] = json.loads(f.read_text())
 
 NOT_YET = "check not built yet in this round (planned, see DESIGN.md §8 build-out order)"
 
